@@ -81,6 +81,14 @@ func layoutJudge(env *hx.Env, m layoutMeta) (hx.Verdict, string) {
 		}
 		return hx.Pass, "no-converter-rejected"
 	}
+	if m.File.EmbedsConverter() && o.Res.Exit != 0 {
+		// a converter interface that embeds another converter interface: the embedded methods belong to both, and no Go
+		// file can hold two functions of one name - refusing the file is the only sound answer (C01)
+		if o.Res.Crashed() || strings.TrimSpace(o.Res.Stderr) == "" {
+			return hx.Failf(P+"|embedded-converter-crash-or-silent", "%s", tail(o.Res.Stderr, 800)), "crash"
+		}
+		return hx.Pass, "embedded-converter-rejected"
+	}
 	if o.Res.Exit != 0 || !o.HasOut {
 		return hx.Failf(P+"|rejected|"+pg.NormalizeCompilerMsg(stripPos(lastLine(o.Res.Stderr))), "well-formed layout rejected (exit %d)\n%s\n--- setup ---\n%s", o.Res.Exit, tail(o.Res.Stderr, 800), m.File.Render()), "rejected"
 	}
